@@ -8,5 +8,6 @@ case "$1" in
   vcoop) python3 tools/overlaygen.py coop >/dev/null && go build -tags verif -overlay .cache/overlay/coop/overlay.json -o bin/vcoop ./cmd/vcoop ;;
   vmapiter) python3 tools/overlaygen_runtime.py >/dev/null && go build -tags verif -overlay .cache/overlay/mapiter/overlay.json -o bin/vmapiter ./cmd/vmapiter ;;
   vevents) python3 tools/overlaygen_events.py >/dev/null && go build -tags verif -overlay .cache/overlay/events/overlay.json -o bin/vevents ./cmd/vdev-c41 ;;
+  vc40) python3 tools/overlaygen_c40.py >/dev/null && go build -tags verif -overlay .cache/overlay/c40/overlay.json -o bin/vc40 ./cmd/vdev-c40 ;;
   *) echo "unknown flavour $1" >&2; exit 2 ;;
 esac
